@@ -15,13 +15,16 @@ def repo_dir():
     return os.path.realpath(os.path.join(REPO, 'j1939')) + os.sep
 
 
-def random_tracer(sim, seed, p=0.004, holds=(0.0002, 0.001, 0.002), on=None, counter=None, holding=None, kick=None):
+def random_tracer(sim, seed, p=0.004, holds=(0.0002, 0.001, 0.002), on=None, counter=None, holding=None, kick=None, max_holds=None, log=None):
     jdir = repo_dir()
     prng = random.Random(seed)
 
     def local(frame, event, arg):
-        if event == 'line' and (on is None or on[0]) and not sim.reentrant_depth and prng.random() < p:
+        if event == 'line' and (on is None or on[0]) and not sim.reentrant_depth and prng.random() < p \
+                and (max_holds is None or counter is None or counter[0] < max_holds):
             h = prng.choice(holds)
+            if log is not None:
+                log.append((sim.now, sim.now + h, frame.f_code.co_name, frame.f_lineno))
             if counter is not None:
                 counter[0] += 1
             if kick is not None:
